@@ -32,16 +32,16 @@ type c14Op struct {
 
 type c14World struct {
 	a       *stun.Agent
-	clock   int64
+	clock   atomic.Int64
 	mu      sync.Mutex
 	current map[int64][]*c14Op // goroutine id -> stack of operations in progress
 	all     []*c14Op
 	reentr  bool
 	seed    uint64
-	nestN   int64
+	nestN   atomic.Int64
 }
 
-func (w *c14World) tick() int64 { return atomic.AddInt64(&w.clock, 1) }
+func (w *c14World) tick() int64 { return w.clock.Add(1) }
 
 func (w *c14World) push(g int64, op *c14Op) {
 	w.mu.Lock()
@@ -80,7 +80,7 @@ func (w *c14World) handler(tag int8) stun.Handler {
 		runtime.Gosched() // widen the window between the agent's unlock and the end of the call
 		if w.reentr && cl != evClosed && op != nil && !op.nested {
 			// re-entrant handler (outside Close): calls back into the agent from inside the event
-			n := atomic.AddInt64(&w.nestN, 1)
+			n := w.nestN.Add(1)
 			id := int8((uint64(n) + w.seed) % amIDs)
 			var c amCall
 			if n%2 == 0 {
